@@ -714,6 +714,9 @@ func unescapeBackTickSpecialStr(l *syntax.Lexer, srcLiteral []rune) []rune {
 		//      and we add the char to srcLiteral directly
 		//   b) the next next char is other string (`”balhbalh)- NO WAY, stop before parsing the quote mark
 		switch l.Peek() {
+		case syntax.RuneEOF:
+			// never consume beyond the end of source
+			goto UNDONE_end
 		case LeftDoubleQuoteI, LeftDoubleQuoteII, LeftSingleQuoteI, LeftSingleQuoteII, LeftLibQuoteI,
 			RightDoubleQuoteI, RightDoubleQuoteII, RightSingleQuoteI, RightSingleQuoteII, RightLibQuoteI:
 			qch := l.Peek()
